@@ -685,6 +685,28 @@ Definition step (s : state) (o : op) : state * res :=
 
 Definition run (ops : list op) (s : state) : state := fold_left (fun s o => fst (step s o)) ops s.
 
+(* ---------------------------------------------------------------- notions used by the property statements *)
+(* the mutable array objects reachable from a vector (its metadata dict is `vmeta`) *)
+Definition reach (v : vec) : list nat :=
+  flat_map (fun lf : leaf => match lf with Some i => [i] | None => [] end) (leaves (vdata v)).
+
+(* the array stored behind a leaf (None for an unset cell) *)
+Definition leaf_val (h : list cell) (lf : leaf) : option cell :=
+  match lf with Some id => nth_error h id | None => None end.
+
+(* column k / all rows of the cell found at an address (nothing for an unset cell) *)
+Definition cell_col (k : nat) (h : list cell) (x : option leaf) : list Q :=
+  match x with
+  | Some (Some id) => match nth_error h id with Some c => col k c | None => [] end
+  | _ => []
+  end.
+
+Definition cell_rows (h : list cell) (x : option leaf) : list (list Q) :=
+  match x with
+  | Some (Some id) => match nth_error h id with Some c => rows c | None => [] end
+  | _ => []
+  end.
+
 (* ---------------------------------------------------------------- observation (harness glue) *)
 (* Everything the property speaks about, serialised to integers.  Array identity is reported
    canonically: arrays are numbered in order of first appearance when the live vectors are
